@@ -154,7 +154,9 @@ def enumerate_cases(tier, seed):
 LIVE_SPEC = [
     ["readme.txt", "f", "hello\nworld\n"], ["empty.txt", "f", ""], ["big.bin", "f", "".join(chr(i % 251) for i in range(150000))],
     ["page.html", "f", "<html><head><title>A Page</title></head><body>x</body></html>\n"], ["dir/sub/deep.txt", "f", "deep\n"],
-    ["dir/a b.txt", "f", "blank in name\n"], ["dir/caf\xe9 \xff.txt", "f", "a name that is not UTF-8\n"], ["dir/.names", "f", "Path=./sub\nName=Sub Dir\n"], ["box.mbox", "f", None],
+    ["dir/a b.txt", "f", "blank in name\n"], ["dir/caf\xe9 \xff.txt", "f", "a name that is not UTF-8\n"],
+    # (an entry nobody can serve, with such a name: it is left out of the listing - and the log record about it is written)
+    ["dir/gon\xe9 \xff link", "l", "nowhere"], ["dir/.names", "f", "Path=./sub\nName=Sub Dir\n"], ["box.mbox", "f", None],
     ["arc.zip", "zip", {"members": [["in/x.txt", "f", "zip member\n", {}], ["big.dat", "f", "z" * 70000, {}]]}],
     ["c.txt.gz", "f", None], ["run.sh", "f", None, 0o755],
 ]
